@@ -19,9 +19,27 @@ def chunked_case(cid, rnd):
                 schedule_seed=rnd.randint(1, 1 << 30), latency_us=sorted([rnd.randint(0, 500), rnd.randint(0, 500)]))
 
 
+def wrap_case(cid, rnd):
+    """A long segmented SDO upload (the initiate response stays claimed for its whole duration) while the other tasks
+    send so many frames that the 8 bit datagram index wraps, several times."""
+    ndev = rnd.randint(2, 5)
+    devs = [dict(kind="dio", in_bits=8, out_bits=8, tag=i + 1) for i in range(ndev)]
+    c = rnd.randrange(ndev)
+    devs[c] = dict(kind="coe", in_bits=16, out_bits=16, tag=c + 1, mailbox_size=rnd.choice([20, 24, 32]), big_object=rnd.choice([300, 500, 700]))
+    tasks = [dict(op="sdo_read", device=c, index=0x2100, sub=0, read_as="str1024", count=1)]
+    for _ in range(rnd.randint(3, 6)):
+        tasks.append(dict(op="register_read", device=rnd.randrange(ndev), reg=rnd.choice([0x0010, 0x0130, 0x0000, 0x0008]), count=rnd.randint(150, 300)))
+    rnd.shuffle(tasks)
+    return dict(id=cid, devices=devs, groups=2, frames=rnd.choice([8, 16, 16]), frame_data=rnd.choice([1100, 128]), tasks=tasks,
+                schedule_seed=rnd.randint(1, 1 << 30), latency_us=sorted([rnd.randint(0, 200), rnd.randint(0, 200)]))
+
+
 def make_case(cid, rnd):
-    if rnd.random() < 0.25:
+    x = rnd.random()
+    if x < 0.25:
         return chunked_case(cid, rnd)
+    if x < 0.30:
+        return wrap_case(cid, rnd)
     ndev = rnd.randint(2, 8)
     groups = rnd.choice([2, 2, 3])
     devs = []
@@ -94,13 +112,30 @@ def run(pid, tier):
     q = tier == "quick"
     sc = SimCheck(pid, tier, "tasks")
     rnd = random.Random(lib.seed())
-    inv = ["OwnResponses", "NoSpuriousFailure", "NeverFailsWithEnoughSlots", "DistinctInFlight"]
-    for name, consts in (("3t-2s", dict(NTasks=3, Slots=2, Ops=2, IdxMod=8)), ("3t-3s", dict(NTasks=3, Slots=3, Ops=3, IdxMod=16)),
-                         ("4t-2s", dict(NTasks=4, Slots=2, Ops=2, IdxMod=16))):
-        if q and name == "4t-2s":
-            continue
+    inv = ["OwnResponses", "NoSpuriousFailure", "NeverFailsWithEnoughSlots", "DistinctInFlight", "NoResponseLost"]
+    plain = dict(MaxHeld=0, Abandons=False, SentOnly=True)
+    runs = [("3t-2s", dict(NTasks=3, Slots=2, Ops=2, IdxMod=8, **plain)), ("3t-3s", dict(NTasks=3, Slots=3, Ops=3, IdxMod=16, **plain)),
+            # the index wraps while responses are kept claimed / operations are given up
+            ("hold-wrap", dict(NTasks=2, Slots=3, Ops=3, IdxMod=3, MaxHeld=1, Abandons=False, SentOnly=True)),
+            ("abandon-wrap", dict(NTasks=2, Slots=2, Ops=3, IdxMod=3, MaxHeld=0, Abandons=True, SentOnly=True)),
+            ("hold-abandon-wrap", dict(NTasks=2, Slots=3, Ops=3, IdxMod=3, MaxHeld=1, Abandons=True, SentOnly=True))]
+    if not q:
+        runs += [("4t-2s", dict(NTasks=4, Slots=2, Ops=2, IdxMod=16, **plain)),
+                 ("3t-2s-hold-abandon", dict(NTasks=3, Slots=2, Ops=2, IdxMod=8, MaxHeld=1, Abandons=True, SentOnly=True)),
+                 ("2t-3s-4ops-wrap", dict(NTasks=2, Slots=3, Ops=4, IdxMod=3, MaxHeld=1, Abandons=True, SentOnly=True))]
+    for name, consts in runs:
         cfg = lib.cfg_text(spec="TkSpec", constants=consts, invariants=inv, properties=["AllFinish"])
-        sc.mc(f"tasks-{name}", "Tasks", cfg, workers=4)
+        sc.mc(f"tasks-{name}", "Tasks", cfg, workers=8)
+    # vacuity guard: the routing rule matters in these configurations - without it (first slot carrying the index
+    # decides) the model must lose a response
+    cfg = lib.cfg_text(spec="TkSpec", constants=dict(NTasks=2, Slots=3, Ops=3, IdxMod=3, MaxHeld=1, Abandons=False, SentOnly=False),
+                       invariants=["NoResponseLost"])
+    d = os.path.join(sc.wd, "mc-control")
+    os.makedirs(d, exist_ok=True)
+    r = lib.tlc(d, "Tasks", cfg, workers=4, timeout=600, heap="4g")
+    if "NoResponseLost" not in (r.violated or []):
+        raise lib.ToolError(f"control: Tasks.tla with SentOnly=FALSE does not lose a response ({r.violated}, {r.error})")
+    lib.log("control: SentOnly=FALSE loses a response in the model, as it must")
     cases = [make_case(f"k{i}", rnd) for i in range(120 if q else 3000)]
     raw = sc.run_cases("tasks", cases, binary="vsim2")
     trace = os.path.join(sc.wd, "tasks.proj.ndjson")
@@ -116,7 +151,7 @@ def run(pid, tier):
     with open(raw) as fi:
         for line in fi:
             c = json.loads(line)
-            if c.get("result") != "ok" or "events" not in c or len(c["events"]) > 6000:
+            if c.get("result") != "ok" or "events" not in c or len(c["events"]) > 20000:
                 continue
             key_ = (c["case"]["frames"], len(c["case"]["tasks"]))
             groups_.setdefault(key_, []).append(dict(case=dict(id=c["case"]["id"]), events=c["events"]))
@@ -125,7 +160,7 @@ def run(pid, tier):
         with open(ev, "w") as fo:
             for r_ in recs:
                 fo.write(json.dumps(r_) + "\n")
-        sc.validate(f"events-{slots}s-{nt}t", ev, "TasksEventTrace", dict(NTasks=nt, Slots=slots, Ops=100000, IdxMod=256),
+        sc.validate(f"events-{slots}s-{nt}t", ev, "TasksEventTrace", dict(NTasks=nt, Slots=slots, Ops=100000, IdxMod=256, MaxHeld=slots, Abandons=True, SentOnly=True),
                     constraints=("Track", "Judge"), key_fn=lambda c: (len(c["events"]),), sample_fn=lambda c: False)
     return sc.finish(
         "one case = one seeded schedule of 2..4 tasks on one MainDevice, compared operation by operation with the same tasks run "
